@@ -324,6 +324,10 @@ class World:
                 self.v("live-via-dead", f"{tag} but it was never dead-lettered")
             else:
                 m.dead = True
+        elif c.category == "DEAD" and m.unknown:
+            # its state was uncertain after a cancelled call (e.g. a nack): arriving through the dead category settles it - the
+            # call took effect
+            m.dead = True
         # identity of what is delivered
         if key.topic != m.topic or key.queue != m.queue:
             self.v("delivered-key", f"{tag}: key {key} differs from enqueued topic/queue")
